@@ -188,6 +188,63 @@ def stage_prop(name):
     return dst
 
 
+def prove(chk, prop, gen_files, extra_props=()):
+    """Stage coq/props/<prop>.v, compile gen files + it, record one obligation per theorem.
+    Returns (ok, failed) where failed is a list of (what, name, detail)."""
+    failed = []
+    path = stage_prop(prop)
+    for e in extra_props:
+        stage_prop(e)
+    ok, res = compile_chain(list(gen_files) + [os.path.join(PROPS_OUT, e + ".v") for e in extra_props] + [path])
+    names = theorems_in(path)
+    last_path, last = res[-1]
+    out = last.text
+    if ok:
+        for n in names:
+            chk.obligation(n, True)
+        ax = parse_assumptions(out)
+        chk.assumptions.append("Print Assumptions (%s.v): %d results 'Closed under the global context'; axioms listed: %s"
+                               % (prop, ax.get("closed", 0), ax.get("axioms", "none")))
+        return True, failed
+    bad = None
+    if last_path == path:
+        m = re.search(r"\(in proof ([A-Za-z0-9_']+)\)", out)
+        bad = m.group(1) if m else None
+        if not bad:
+            m = re.search(r"line (\d+)", out)
+            if m:
+                ln = int(m.group(1))
+                txt = open(path).read().split("\n")
+                for i in range(min(ln, len(txt)) - 1, -1, -1):
+                    mm_ = re.match(r"\s*(?:Theorem|Lemma|Corollary|Example)\s+([A-Za-z0-9_']+)", txt[i])
+                    if mm_:
+                        bad = mm_.group(1)
+                        break
+        seen_bad = False
+        for n in names:
+            if n == bad:
+                seen_bad = True
+                chk.obligation(n, False, "coqc: " + out[-400:])
+            else:
+                chk.obligation(n, not seen_bad and bad is not None, "" if not seen_bad and bad is not None else "not reached")
+        failed.append(("proof", bad or (prop + ".v"), out[-1500:]))
+    else:
+        for n in names:
+            chk.obligation(n, False, "not reached: %s does not compile" % os.path.basename(last_path))
+        failed.append(("coqc", os.path.basename(last_path), out[-1500:]))
+    return False, failed
+
+
+def coq_eval(name, header, exprs, timeout=None):
+    """Evaluate closed Coq expressions with vm_compute in a scratch file under build/props; returns the raw outputs."""
+    f = os.path.join(PROPS_OUT, name + ".v")
+    write_if_changed(f, header + "".join("Eval vm_compute in (%s).\n" % e for e in exprs))
+    r = coqc(f, timeout)
+    if not r.ok:
+        raise RuntimeError("coq_eval %s failed: %s" % (name, r.text[-1500:]))
+    return [x.strip() for x in re.split(r"(?m)^\s*= ", r.out)[1:]]
+
+
 def theorems_in(path):
     txt = open(path).read()
     return re.findall(r"^\s*(?:Theorem|Lemma|Corollary|Example)\s+([A-Za-z0-9_']+)", txt, re.M)
